@@ -8,7 +8,7 @@ Dicts are association lists; `NodupKeys` says a list is a dict.  `Rep sp P` says
 search space `sp` is exactly the intersection of the parameter dicts of the trials in the set `P`.
 -/
 namespace OptunaVerif.SearchSpace
-open OptunaVerif OptunaVerif.Generated
+open OptunaVerif
 
 /-! ## association lists as dicts -/
 
